@@ -99,19 +99,11 @@ class Game():
                   (0x3100, 0x3200, self.music._data),
                   (0x3200, 0x4300, self.sfx._data))
         for start_a, end_a, section_data in memmap:
-            if (start_addr > end_a or
-                    start_addr + len(data) < start_a):
+            # The part of [start_addr, start_addr + len(data)) that falls in
+            # this region.
+            lo = max(start_addr, start_a)
+            hi = min(start_addr + len(data), end_a)
+            if lo >= hi:
                 continue
-            data_start_a = (start_addr - start_a
-                            if start_addr > start_a
-                            else 0)
-            data_end_a = (start_addr + len(data) - start_a
-                          if start_addr + len(data) < end_a
-                          else end_a)
-            text_start_a = (0 if start_addr > start_a
-                            else start_a - start_addr)
-            text_end_a = (len(data)
-                          if start_addr + len(data) < end_a
-                          else -(start_addr + len(data) - end_a))
-            section_data[data_start_a:data_end_a] = \
-                data[text_start_a:text_end_a]
+            section_data[lo - start_a:hi - start_a] = \
+                data[lo - start_addr:hi - start_addr]
